@@ -42,3 +42,19 @@ Theorem C02_engine_read_sizes_irrelevant_at_eof : forall data cs bufsize t reads
   results_bytes (fst (erun_ext bufsize cs t reads1)) = results_bytes (fst (erun_ext bufsize cs t reads2)).
 Proof. exact engine_read_sizes_irrelevant_at_eof. Qed.
 Print Assumptions C02_engine_read_sizes_irrelevant_at_eof.
+
+(* ---- both halves on the engine model (soundness + safety + completeness, proofs/EngineTop.v): a
+   complete stream whose dynamic blocks carry distance codes that are complete or have no code word
+   longer than 10 bits (std_stream: every stream a conforming compressor writes; the single place
+   where the engine is stricter than the permissive reference is an incomplete distance code needing
+   more than 80 long-code table entries), read with enough positive-size Reads under any schedule:
+   some Read reports io.EOF, the bytes are exactly the reference output, the consumption is exact. *)
+From Verif Require Import EngineSafetyBuf EngineCompleteSpecC EngineCompleteSpecG EngineTop.
+Theorem C02_engine_valid_stream_decoded : forall data cs bufsize t reads,
+  bytes_ok data -> cut_of cs data -> in_model_bounds bufsize cs ->
+  status (Inflate.inflate [] data) = Done -> std_stream data -> enough_reads data reads ->
+  In REOF (map snd (fst (erun_ext bufsize cs t reads))) /\
+  results_bytes (fst (erun_ext bufsize cs t reads)) = out (Inflate.inflate [] data) /\
+  snd (erun_ext bufsize cs t reads) = (bitpos (Inflate.inflate [] data) + 7) / 8.
+Proof. exact engine_valid_stream_decoded. Qed.
+Print Assumptions C02_engine_valid_stream_decoded.
